@@ -17,6 +17,10 @@ type tamperCtx struct {
 	t      *kernel.Tape
 	orig   *sent
 	others []*sent // other submitted transactions of the run (signature donors)
+	// dynUnused is set by an entry whose edit, for this particular transaction,
+	// touches data that takes no part in the authorisation (e.g. the classic
+	// ring-signature slots of an MLSAG-signed transaction)
+	dynUnused bool
 }
 
 type tamper struct {
